@@ -481,13 +481,57 @@ def diverge_online(agent, case, batch) -> int:
     return rows
 
 
+def other_options(case: dict) -> dict:
+    """the same learner constructed with DIFFERENT options: double flipped, other gamma / tau / policy_freq"""
+    other = dict(case)
+    name = case["algo"]
+    if base_algo(name) in ("DQN", "CQN"):
+        other["algo"] = base_algo(name) if name.endswith("-double") else base_algo(name) + "-double"
+    other["seed"] = int(case["seed"]) + 977
+    other["gamma"] = 0.7 if float(case.get("gamma", 0.99)) != 0.7 else 0.8
+    other["tau"] = 0.3 if float(case.get("tau", 0.5)) != 0.3 else 0.6
+    if base_algo(name) in DELAYED:
+        other["policy_freq"] = 3 if int(case.get("policy_freq", 2)) != 3 else 1
+    if base_algo(name) == "RainbowDQN":
+        other["n_step"] = 5 if int(case.get("n_step", 3)) != 5 else 2
+    other.pop("load_into", None)
+    return other
+
+
+def load_into_other(agent, case):
+    """save the agent, then restore it (load_checkpoint into an agent built with different constructor options,
+    or Algo.load).  "Also directly after checkpoint load": what the restored agent minimises is judged against
+    ITS OWN current attributes (agent.double, agent.gamma, ...), whatever they were restored to."""
+    algo = base_algo(case["algo"])
+    fd, path = tempfile.mkstemp(prefix="c08_", suffix=".pt")
+    os.close(fd)
+    try:
+        agent.save_checkpoint(path)
+        if case["load_into"] == "classmethod":
+            restored = agents.algo_class(algo).load(path, device="cpu")
+        else:
+            restored = build_agent(other_options(case))
+            restored.load_checkpoint(path)
+    finally:
+        if os.path.exists(path):
+            os.remove(path)
+    note = {k: (getattr(agent, k, None), getattr(restored, k, None)) for k in ("double", "gamma", "tau", "policy_freq")
+            if hasattr(agent, k)}
+    return restored, note
+
+
 def run_loss_case(chk: Check, case: dict):
     """-> (impl lines, model lines, oracle problems, tags, detail)"""
     algo = base_algo(case["algo"])
+    if algo == "RainbowDQN":
+        return run_loss_rainbow(chk, case)
     agent = build_agent(case)
     pretrain(agent, case, int(case.get("pretrain", 1)))
     batch = make_case_batch(agent, case)
     diverge_online(agent, case, batch)
+    load_note = None
+    if case.get("load_into"):
+        agent, load_note = load_into_other(agent, case)
     lseed = int(case["seed"]) + 5
     pristine = copy.deepcopy(batch)                 # the batch as the caller handed it over
     before = fingerprint(batch)
@@ -552,9 +596,113 @@ def run_loss_case(chk: Check, case: dict):
     if case.get("team_reward"):
         tags.append("team-reward-tensor-shared")
     tags.append("inputs-unchanged" if not (touched or touched2) else "INPUTS-CHANGED")
+    if load_note is not None:
+        tags.append(f"after-load-{case['load_into']}")
+        if problems:
+            problems[0] += (f"  [agent restored from a checkpoint ({case['load_into']}); (saved, restored) attributes: "
+                            f"{load_note}; the reference uses the restored agent's current attributes]")
     return agree, impl_line, model_line, problems, tags, \
         {"driver_op": line[:200] + ("…" if len(line) > 200 else ""), "info": info, "second_learn": got2,
          "second_reference": defs2, "findings_inputs": findings}
+
+
+FINDING_PER_BROADCAST = "C08-rainbow-per-weights-broadcast"
+
+
+def c51_term(agent, batch, gamma: float):
+    """one term of Rainbow's loss in float64, independent of _dqn_loss: per row the cross-entropy between the
+    categorical projection of r + (1-d)*gamma*z under the TARGET net's distribution at the ONLINE net's greedy
+    action and the online net's log-distribution at the action taken.  Network outputs are inputs."""
+    obs, act, rew, nxt, done = unpack(batch)
+    with torch.no_grad():
+        o = agent.preprocess_observation(obs)
+        n = agent.preprocess_observation(nxt)
+        greedy = agent.actor(n).argmax(1)
+        tdist = agent.actor_target(n, q=False)
+        logp = agent.actor(o, q=False, log=True)
+    B = tdist.shape[0]
+    p = tdist[torch.arange(B), greedy].double().numpy()                       # (B, atoms)
+    lp = logp[torch.arange(B), act.reshape(-1).long()].double().numpy()       # (B, atoms)
+    z = agent.support.double().numpy()
+    vmin, vmax, N = float(agent.v_min), float(agent.v_max), int(agent.num_atoms)
+    dz = (vmax - vmin) / (N - 1)
+    r = rew.reshape(-1).double().numpy()
+    d = done.reshape(-1).double().numpy()
+    out = np.zeros(B)
+    for i in range(B):
+        m = np.zeros(N)
+        for j in range(N):
+            tz = min(max(r[i] + (1.0 - d[i]) * gamma * z[j], vmin), vmax)
+            bpos = min(max((tz - vmin) / dz, 0.0), N - 1.0)
+            lo = int(np.floor(bpos))
+            frac_ = bpos - lo
+            m[lo] += p[i, j] * (1.0 - frac_)
+            if frac_ > 0:
+                m[min(lo + 1, N - 1)] += p[i, j] * frac_
+        out[i] = -(m * lp[i]).sum()
+    return out
+
+
+def run_loss_rainbow(chk: Check, case: dict):
+    """RainbowDQN (1-step, n-step, prioritised; combined_reward on/off): learn()'s loss and new priorities
+    against L = [1-step term with gamma] (if combined_reward or no n-step batch) + [n-step term with gamma**n]"""
+    variant = case.get("variant", "plain")
+    nstep = variant in ("nstep", "per_nstep")
+    per = variant in ("per", "per_nstep")
+    fam = case.get("family", "vector")
+    agent = trained_agent(case)
+    n = batch_size_of(agent)
+    seed = int(case["seed"])
+    bt = agents.make_batch(agent, "RainbowDQN", fam, n=n, seed=seed + 17, dones=case["dones"], variant=variant)
+    ex = agents.make_batch(agent, "RainbowDQN", fam, n=n, seed=seed + 7919,
+                           dones=case.get("n_dones") or case["dones"]) if nstep else None
+    gamma, ns, comb = float(agent.gamma), int(agent.n_step), bool(agent.combined_reward)
+    terms = []
+    if comb or not nstep:
+        terms.append(("1-step, gamma", c51_term(agent, bt, gamma)))
+    if nstep:
+        terms.append((f"{ns}-step, gamma**{ns}", c51_term(agent, ex, gamma ** ns)))
+    elem = sum(t for _n, t in terms)
+    if per:
+        w = bt["weights"].reshape(-1).double().numpy()
+        ref_loss = float((elem * w).mean())
+        broadcast_loss = float(elem.mean() * w.mean())
+    else:
+        ref_loss, broadcast_loss = float(elem.mean()), None
+    fp = fingerprint((bt, ex))
+    kw = {}
+    if per:
+        kw["per"] = True
+    if ex is not None:
+        kw["n_experiences"] = ex
+    agents.seed_all(seed + 5)
+    ret = agent.learn(bt, **kw)
+    got = float(ret[0])
+    problems, findings = [], []
+    what = (f"RainbowDQN[{variant}, n_step={ns}, combined_reward={comb}, gamma={gamma}]: terms "
+            f"{[n_ for n_, _t in terms]}")
+    tol = dict(rel=5e-5, absol=2e-6)
+    if not (np.isfinite(got) and close(got, ref_loss, **tol)):
+        if broadcast_loss is not None and close(got, broadcast_loss, **tol):
+            findings.append(f"{what}: with PER the returned loss {got!r} is mean(weights)*mean(loss_i) = {broadcast_loss!r}, "
+                            f"not the importance-weighted mean(weights_i*loss_i) = {ref_loss!r}: the (batch,) loss is "
+                            f"multiplied by the (batch,1) weight column (batch x batch broadcast)")
+        else:
+            problems.append(f"{what}: learn returned loss {got!r}, the categorical Bellman loss of the batch is {ref_loss!r}")
+    if per:
+        pri = np.asarray(ret[2], dtype=np.float64).reshape(-1)
+        refp = elem + float(agent.prior_eps)
+        bad = [i for i in range(len(refp)) if not close(float(pri[i]), float(refp[i]), rel=5e-5, absol=2e-6)]
+        if len(pri) != len(refp) or bad:
+            i = bad[0] if bad else 0
+            problems.append(f"{what}: new priority of row {i} is {float(pri[i])!r}, loss_i + prior_eps is {float(refp[i])!r} "
+                            f"({len(bad)} of {len(refp)} rows differ)")
+    touched = changed_inputs(fp, (bt, ex))
+    if touched:
+        problems.append(f"RainbowDQN[{variant}]: learn() changed the experiences it was given: {touched[:4]}")
+    tags = [f"loss-RainbowDQN-{variant}", f"n_step-{ns}", "combined-reward" if comb else "single-reward", f"fam-{fam}"]
+    return True, f"{got:.6g}", f"{ref_loss:.6g}", problems, tags, \
+        {"terms": [n_ for n_, _t in terms], "reference_loss": ref_loss, "returned": got, "findings_per": findings}
 
 
 # ----------------------------------------------------------------------------- metamorphic suite
@@ -919,9 +1067,7 @@ def apply_prelude(agent, case):
             if case.get("load_via", "load_checkpoint") == "classmethod":
                 agent = agents.algo_class(algo).load(path, device="cpu")
             else:
-                other = dict(case)
-                other["seed"] = int(case["seed"]) + 977
-                fresh = build_agent(other)
+                fresh = build_agent(other_options(case))
                 fresh.load_checkpoint(path)
                 agent = fresh
             # which target tensors did the round trip restore?  (restoring is property C07; a tensor that
@@ -1421,6 +1567,37 @@ def run(chk: Check) -> None:
         c = gen_loss_case(rng, chk.tier, nm)
         c["diverge"], c["pretrain"], c["tau"] = True, 2, rng.choice([0.5, 0.01])
         cases.append((c, None))
+    # RainbowDQN's loss and priorities: combined_reward x PER x n_step, each term against a float64 projection
+    for comb in (True, False):
+        for per in (True, False):
+            for ns in (1, 3, 5):
+                cases.append(({"kind": "loss", "algo": "RainbowDQN", "family": rng.choice(["vector", "vector", "discrete"]),
+                               "seed": rng.randrange(1 << 24), "gamma": rng.choice([0.9, 0.5, 0.99]), "tau": 0.5,
+                               "pretrain": rng.choice([0, 1, 2]), "variant": "per_nstep" if per else "nstep",
+                               "n_step": ns, "combined_reward": comb, "dones": gen_dones(rng, 8),
+                               "n_dones": gen_dones(rng, 8)}, None))
+    for variant in ("plain", "per"):
+        cases.append(({"kind": "loss", "algo": "RainbowDQN", "family": "vector", "seed": rng.randrange(1 << 24),
+                       "gamma": rng.choice([0.9, 0.5]), "tau": 0.5, "pretrain": 1, "variant": variant,
+                       "n_step": rng.choice([1, 3]), "combined_reward": rng.choice([True, False]),
+                       "dones": gen_dones(rng, 8)}, None))
+    # directly after a checkpoint load into an agent that was constructed with DIFFERENT options (and after
+    # Algo.load): the restored agent's loss against its own current attributes
+    for nm in LOSS_ALGOS:
+        if quick and nm == "MADDPG":
+            continue
+        c = gen_loss_case(rng, chk.tier, nm, ma_dones=True)
+        c["load_into"] = "load_checkpoint"
+        c["pretrain"] = max(1, c["pretrain"])
+        if base_algo(nm) in ("DQN", "CQN"):
+            c["diverge"] = True
+        cases.append((c, None))
+    for nm in ("DQN-double", "CQN-double", "TD3"):
+        c = gen_loss_case(rng, chk.tier, nm)
+        c["load_into"], c["pretrain"] = "classmethod", max(1, c["pretrain"])
+        if base_algo(nm) in ("DQN", "CQN"):
+            c["diverge"] = True
+        cases.append((c, None))
     # cooperative batches: every agent is handed one and the same reward tensor object
     for nm in ("MATD3", "MADDPG"):
         c = gen_loss_case(rng, chk.tier, nm, ma_dones=True)
@@ -1521,6 +1698,10 @@ def run(chk: Check) -> None:
             sensitive[0] += 1
         if "INSENSITIVE-live-row" in tags:
             sensitive[1] += 1
+        per_known = res["detail"].get("findings_per") if isinstance(res.get("detail"), dict) else None
+        if per_known:
+            chk.finding(FINDING_PER_BROADCAST, per_known[0], {"case": case, "oracle_problems": per_known,
+                                                              "detail": res["detail"]})
         inputs_known = res["detail"].get("findings_inputs") if isinstance(res.get("detail"), dict) else None
         if inputs_known:
             chk.finding(FINDING_INPUT_ACTIONS, inputs_known[0], {"case": case, "oracle_problems": inputs_known,
@@ -1776,7 +1957,7 @@ def replay(chk: Check, path: str) -> int:
     res = run_case(chk, case)
     if isinstance(res["detail"], dict):
         res["problems"] = res["problems"] + list(res["detail"].get("findings", [])) + \
-            list(res["detail"].get("findings_inputs", []))
+            list(res["detail"].get("findings_inputs", [])) + list(res["detail"].get("findings_per", []))
     print(json.dumps({"case": case, "agree_with_model": res["agree"], "oracle_problems": res["problems"],
                       "impl": res["impl"][-4:], "model": res["model"][-4:], "detail": res["detail"]},
                      indent=1, default=str))
